@@ -245,42 +245,217 @@ def _spec_apps(w, formulas, visited):
     return out
 
 
+class WfSym:
+    """wf(t): every field of node t (recursively) holds a value of the sort the grammar demands.
+    Lazily unfolded, class-directed, as GUARDED instances  is_C(t) -> wf(t) == …"""
+
+    def __init__(self, w):
+        self.w = w
+        S = w.S
+        self.f = z3.Function("wf", S.Py, z3.BoolSort())
+        w.lazy["wf"] = ("wf", self)
+        self.lists = {}
+
+    def typefact(self, ty, a):
+        S = self.w.S
+        P = S.Py
+        if ty == "expr":
+            return S.is_expr(a)
+        if ty in ("arguments", "arg", "keyword", "comprehension"):
+            return S.rec(ty)(a)
+        if ty in ("operator", "unaryop", "boolop", "cmpop"):
+            return S.is_base(ty, a)
+        if ty == "stmt":
+            return S.is_base("stmt", a)
+        if ty in ("identifier", "string"):
+            return P.is_PStr(a)
+        if ty == "int":
+            return z3.Or(P.is_PInt(a), P.is_PBool(a))
+        return z3.BoolVal(True)       # constant: any Python value
+
+    def list_fn(self, ty):
+        if ty not in self.lists:
+            S = self.w.S
+            g = z3.Function(f"wf_list__{ty}", S.PyList, z3.BoolSort())
+            l = z3.Const("l", S.PyList)
+            h = S.head(l)
+            body = z3.If(S.is_nil(l), z3.BoolVal(True),
+                         z3.And(self.typefact(ty, h),
+                                self.f(h) if S._is_node_type(ty) else z3.BoolVal(True),
+                                g(S.tail(l))))
+            self.w.defs[g.name()] = (g, [l], body, True)
+            self.lists[ty] = g
+        return self.lists[ty]
+
+    def child_inst(self, kind, t, extra, cls):
+        S = self.w.S
+        if cls not in S.classes:
+            return z3.BoolVal(True)
+        parts = []
+        for fname, fty, q in S.fields[cls]:
+            a = S.acc(cls, fname)(t)
+            if q == "*":
+                parts.append(self.list_fn(fty)(a))
+            elif q == "?":
+                inner = self.typefact(fty, a)
+                if S._is_node_type(fty):
+                    inner = z3.And(inner, self.f(a))
+                parts.append(z3.Or(S.Py.is_PNone(a), inner))
+            else:
+                parts.append(self.typefact(fty, a))
+                if S._is_node_type(fty):
+                    parts.append(self.f(a))
+        return z3.And(parts) if parts else z3.BoolVal(True)
+
+
+def _field_class(S, t):
+    """If t is an accessor application whose grammar type is ONE concrete class, that class."""
+    if z3.is_app(t) and t.decl().kind() == z3.Z3_OP_DT_ACCESSOR:
+        n = t.decl().name()
+        if "__" in n:
+            cls, fname = n.split("__", 1)
+            for f, fty, q in S.fields.get(cls, []):
+                if f == fname and q != "*" and fty in ("arguments", "arg", "keyword",
+                                                       "comprehension"):
+                    return fty
+    return None
+
+
+def _collect1(w, f):
+    """(spec apps, recogniser candidates) of ONE formula, cached by ast id."""
+    cache = w.__dict__.setdefault("_collect_cache", {})
+    k = f.get_id()
+    if k in cache:
+        return cache[k][1], cache[k][2]
+    apps = []
+    cands = []
+    lens = []
+    seen = set()
+    stack = [f]
+    while stack:
+        t = stack.pop()
+        i = t.get_id()
+        if i in seen:
+            continue
+        seen.add(i)
+        if z3.is_quantifier(t):
+            stack.append(t.body())
+            continue
+        if z3.is_app(t) and t.num_args() > 0:
+            d = t.decl()
+            if d.kind() == z3.Z3_OP_DT_IS and t.num_args() == 1:
+                try:
+                    cands.append((t.arg(0).get_id(), d.params()[0].name()))
+                except Exception:
+                    pass
+            else:
+                n = d.name()
+                if n in w.defs or n in w.lazy:
+                    apps.append(t)
+                elif n == "len_l" and t.num_args() == 1:
+                    lens.append(t.arg(0))
+            stack.extend(t.children())
+    cache[k] = (f, apps, cands, lens)      # keep f alive so the id stays valid
+    return apps, cands
+
+
+def len_args(w, f):
+    _collect1(w, f)
+    return w._collect_cache[f.get_id()][3]
+
+
+def _collect(w, formulas, visited, cands):
+    out = []
+    for f in formulas:
+        apps, cs = _collect1(w, f)
+        for a in apps:
+            if a.get_id() not in visited:
+                visited.add(a.get_id())
+                out.append(a)
+        if cands is not None:
+            for tid, c in cs:
+                cands.setdefault(tid, set()).add(c)
+    return out
+
+
+def _inst(w, app, cls):
+    cache = w.__dict__.setdefault("_inst_cache", {})
+    k = (app.get_id(), cls)
+    if k not in cache:
+        n = app.decl().name()
+        if n in w.lazy:
+            kind, sf = w.lazy[n]
+            inst = sf.child_inst(kind, app.arg(0),
+                                 [app.arg(i) for i in range(1, app.num_args())], cls)
+        else:
+            f, params, body, recursive = w.defs[n]
+            inst = z3.substitute(body, *list(zip(params, app.children())))
+        cache[k] = (app, inst)
+    return cache[k][1]
+
+
 def unfold(w, formulas, fuel=2, facts=None):
     """Definitional equations  F(t) == body[t]  for the spec-function applications occurring in
-    `formulas`.  Recursive spec functions are unfolded `fuel` levels, the lazily defined child
-    combinators (F__mapc …) only at terms whose node class is known.  Quantifier free."""
+    `formulas`.  Recursive spec functions are unfolded `fuel` levels; the lazily defined child
+    combinators (F__mapc …, wf) as GUARDED instances  is_C(t) -> F__mapc(t) == C(…)  for every
+    class C for which a recogniser atom is_C(t) occurs in the formulas or in the unfolded spec
+    bodies (a guarded instance is sound whatever the polarity of that atom), or that follows from
+    the grammar.  Quantifier free, always sound."""
     S = w.S
     eqs = []
     visited = set()
     done = set()
-    known = _known_classes(S, list(formulas) + list(facts or []))
-    frontier = [(a, 0) for a in _spec_apps(w, formulas, visited)]
-    while frontier:
+    cands = {}
+    pending = []          # lazy apps waiting for a class candidate
+    frontier = [(a, 0) for a in _collect(w, list(formulas) + list(facts or []), visited, cands)]
+    budget = 3000
+    while frontier and budget > 0:
+        budget -= 1
         app, lvl = frontier.pop()
-        if app.get_id() in done:
-            continue
         n = app.decl().name()
         if n in w.lazy:
-            kind, sf = w.lazy[n]
             t = app.arg(0)
-            cls = None
+            if lvl > fuel:
+                continue
             if z3.is_app(t) and t.decl().kind() == z3.Z3_OP_DT_CONSTRUCTOR:
-                cls = t.decl().name()
+                classes = [(t.decl().name(), False)]
             else:
-                cls = known.get(t.get_id())
-            if cls is None:
+                cs = set(cands.get(t.get_id(), ()))
+                fc = _field_class(S, t)
+                if fc:
+                    cs.add(fc)
+                classes = [(c, True) for c in sorted(cs)]
+            if not classes:
+                pending.append((app, lvl))
+            for cls, guarded in classes:
+                if (app.get_id(), cls) in done:
+                    continue
+                done.add((app.get_id(), cls))
+                if guarded and cls not in S.all_py_constructors:
+                    continue
+                inst = _inst(w, app, cls)
+                eq = app == inst
+                if guarded:
+                    eq = z3.Implies(getattr(S.Py, "is_" + cls)(t), eq)
+                eqs.append(eq)
+                frontier.extend((a, lvl + 1) for a in _collect(w, [inst], visited, None))
+        else:
+            if app.get_id() in done:
+                continue
+            recursive = w.defs[n][3]
+            if recursive and lvl >= fuel:
                 continue
             done.add(app.get_id())
-            inst = sf.child_inst(kind, t, [app.arg(i) for i in range(1, app.num_args())], cls)
+            inst = _inst(w, app, None)
             eqs.append(app == inst)
-            frontier.extend((a, lvl) for a in _spec_apps(w, [inst], visited))
-            continue
-        f, params, body, recursive = w.defs[n]
-        if recursive and lvl >= fuel:
-            continue
-        done.add(app.get_id())
-        inst = z3.substitute(body, *list(zip(params, app.children())))
-        eqs.append(app == inst)
-        nl = lvl + 1 if recursive else lvl
-        frontier.extend((a, nl) for a in _spec_apps(w, [inst], visited))
+            nl = lvl + 1 if recursive else lvl
+            frontier.extend((a, nl) for a in _collect(w, [inst], visited, cands))
+        if not frontier and pending:
+            still = []
+            for app2, lvl2 in pending:
+                if cands.get(app2.arg(0).get_id()):
+                    frontier.append((app2, lvl2))
+                else:
+                    still.append((app2, lvl2))
+            pending = still
     return eqs
